@@ -361,6 +361,40 @@ def run(chk):
         else:
             chk.ok("C11.copy", c, f"`{K.short(a, 50)}` is a new bytes object (or provably immutable)")
     chk.expect_count("C11.copy", ncp, 4, "transport.write calls in _write_websocket_frame")
+    # a send that runs as its own (shielded) task outlives a cancelled caller: the payload it will read later must not be the caller's buffer
+    gsf = cfg_of(sf.node)
+    par0 = sf.node.args.args[1].arg
+    MAKERS = ("asyncio.Task", "loop.create_task", "asyncio.create_task", "asyncio.ensure_future")
+
+    def _is_maker(c):
+        return isinstance(c, ast.Call) and (norm.raw(c.func) in MAKERS or (isinstance(c.func, ast.Attribute) and c.func.attr in ("create_task", "ensure_future")))
+
+    def _own_send(c):
+        return isinstance(c, ast.Call) and norm.raw(c.func).startswith("self._send_") and any(isinstance(a, ast.Name) and a.id == par0 for a in c.args)
+
+    tasks = []
+    for n in gsf.nodes:
+        if n.kind != "stmt" or not isinstance(n.ast, ast.Assign):
+            continue
+        v = n.ast.value
+        # coro = self._send_x(message, ..); Task(coro)      or      task = create_task(self._send_x(message, ..))
+        if _own_send(v) and any(_is_maker(c) and any(isinstance(a, ast.Name) and a.id == norm.raw(n.ast.targets[0]) for a in c.args) for c in ast.walk(sf.node)):
+            tasks.append(n)
+        elif any(_is_maker(c) and any(_own_send(a) for a in c.args) for c in ast.walk(v)):
+            tasks.append(n)
+    copies = [n for n in gsf.nodes if n.kind == "stmt" and isinstance(n.ast, ast.Assign) and norm.raw(n.ast.targets[0]) == par0 and norm.raw(n.ast.value) == f"bytes({par0})"]
+    tests = [n for n in gsf.nodes if n.kind == "test" and norm.raw(n.ast) in (f"type({par0}) is not bytes", f"not type({par0}) is bytes", f"not isinstance({par0}, bytes)")]
+    if not tasks:
+        chk.analysis_error("C11.copy: the coroutine that send_frame() runs as a task was not found")
+    for t in tasks:
+        p1 = gsf.find_path([gsf.entry], lambda n: n is t, lambda n: n in copies or n in tests, EXPLICIT)
+        p2 = gsf.find_path(None, lambda n: n is t, lambda n: n in copies, EXPLICIT, start_edges=[(x, "T") for x in tests]) if tests else None
+        if p1 is None and p2 is None:
+            chk.ok("C11.copy", t.ast, f"`{K.short(t.ast, 60)}`: the task gets an immutable copy of a payload that is not bytes")
+        else:
+            chk.violation("C11.copy", t.ast, K.short(t.ast, 70), f"if type({par0}) is not bytes: {par0} = bytes({par0})",
+                          "the shielded compress-and-send task keeps the caller's buffer: when the sender is cancelled (wait_for timeout) while the task waits for the lock or the executor, send_frame() returns, the caller refills its bytearray and the task later compresses and sends the new content under the old message",
+                          path=gsf.fmt_path(p1 or p2))
     # ---- C11.rx: "however the frames are segmented in transit" - the reader's resumable-state rules are shared with C12 ----
     from rules import C12
 
